@@ -274,10 +274,18 @@ Theorem C18_delimited_list : forall (A : Type) content delim mn mx trail s items
 Proof. exact delimited_list_spec. Qed.
 
 Theorem C18_delimited_list_fails : forall (A : Type) content delim mn mx trail s,
-  delimited_list A content delim mn mx trail s = None <->
-  (content s = None \/
-   exists x s1, content s = Some (x, s1) /\ ~ exists xs s2, chain A content delim xs s1 s2 /\ length xs = mn - 1).
+  empty_and_survives mn mx trail = false ->
+  (delimited_list A content delim mn mx trail s = None <->
+   (content s = None \/
+    exists x s1, content s = Some (x, s1) /\ ~ exists xs s2, chain A content delim xs s1 s2 /\ length xs = mn - 1)).
 Proof. exact delimited_list_fails. Qed.
+
+(* F-18i: DelimitedList(expr, max=1, allow_trailing_delim=True) never matches: `(delim + content) * (0, 0)` is And([]),
+   which fails on every input and is not merged away once Opt(delim) has been appended *)
+Theorem C18_delimited_list_max1_trailing_refuted : exists mn mx trail,
+  1 <= mn /\ mx = Some 1 /\ trail = true /\
+  forall (A : Type) content delim s, delimited_list A content delim mn mx trail s = None.
+Proof. exists 1, (Some 1), true. repeat split; auto. Qed.
 
 (* letters separated by commas, min = 2, max = 3, trailing delimiter allowed *)
 Example C18_delimited_list_instance :
